@@ -1,8 +1,74 @@
 import Driver.Codec
+import LopdfModel.Model.Renumber
 namespace Lopdf.Driver.C10
 open Lopdf Lopdf.Codec
 
-/-- protocol operations of property C10: `none` = not an operation of this property. -/
-def handle (op : String) (args : List String) : Option String := none
+/-- `<k> <nat>*` -/
+def parseNats : List String → Option (List Nat × List String)
+  | [] => none
+  | k :: ts => do
+    let n ← k.toNat?
+    if ts.length < n then none else
+    let xs ← (ts.take n).mapM (·.toNat?)
+    pure (xs, ts.drop n)
+
+partial def parseBm : Nat → List String → Option (BkTable × List String)
+  | 0, ts => some ([], ts)
+  | k+1, ts =>
+    match ts with
+    | a :: b :: c :: ts1 => do
+      let id ← a.toNat?
+      let pn ← b.toNat?
+      let pg ← c.toNat?
+      let (ch, ts2) ← parseNats ts1
+      let (rest, ts3) ← parseBm k ts2
+      pure ((id, { children := ch, page := (pn, pg) }) :: rest, ts3)
+    | _ => none
+
+/-- `<maxid> <trailer-obj> <k> (<num> <gen> <obj>)* <r> <root>* <t> (<id> <pn> <pg> <c> <child>*)*` -/
+def parseDoc (ts : List String) : Option (Doc × List String) :=
+  match ts with
+  | m :: ts1 => do
+    let maxId ← m.toNat?
+    match parseObj ts1 with
+    | some (.dict tr, k :: ts2) => do
+      let n ← k.toNat?
+      let (os, ts3) ← parseObjects n ts2
+      let (roots, ts4) ← parseNats ts3
+      match ts4 with
+      | t :: ts5 => do
+        let tn ← t.toNat?
+        let (bm, ts6) ← parseBm tn ts5
+        pure ({ trailer := tr, objects := os, maxId := maxId, bookmarks := roots, bmTable := bm }, ts6)
+      | [] => none
+    | _ => none
+  | [] => none
+
+def showNats (xs : List Nat) : String :=
+  toString xs.length ++ String.join (xs.map fun x => " " ++ toString x)
+
+def showBm (t : BkTable) : String :=
+  toString t.length ++ String.join (t.map fun (id, b) =>
+    " " ++ toString id ++ " " ++ toString b.page.1 ++ " " ++ toString b.page.2 ++ " " ++ showNats b.children)
+
+def showDoc (d : Doc) : String :=
+  toString d.maxId ++ " " ++ showObj (.dict d.trailer) ++ " " ++ showObjects d.objects ++ " "
+    ++ showNats d.bookmarks ++ " " ++ showBm d.bmTable
+
+/-- `renumber <start> <doc>` -> `ok <doc>` | `panic add|sub` -/
+def handle (op : String) (args : List String) : Option String :=
+  match op with
+  | "renumber" =>
+    some <| match args with
+    | s :: rest =>
+      match s.toNat?, parseDoc rest with
+      | some start, some (d, []) =>
+        match renumber d start with
+        | .ok d' => "ok " ++ showDoc d'
+        | .panic site => "panic " ++ site
+        | .err e => "err " ++ e
+      | _, _ => "bad-op"
+    | [] => "bad-op"
+  | _ => none
 
 end Lopdf.Driver.C10
